@@ -7,6 +7,7 @@ T-corr: the extracted model (check_conf / run / histories) against the real Pand
         histories of check/run calls with real runs on small images (1-3 scales), histories that
         MIX different pipelines (with / without validation, accepted / refused) on one machine object.
 Spec  : independent Python oracle of the documented language and of the expected trace."""
+import json
 import re
 
 import numpy as np
@@ -194,6 +195,18 @@ def gen_mixed(rng):
     return pls, hist
 
 
+def products_digest(left, right):
+    """digest of every variable of the two returned datasets (NaN-aware: the bytes of the arrays)"""
+    import hashlib
+    h = hashlib.sha1()
+    for ds in (left, right):
+        for name in sorted(ds.data_vars):
+            a = ds[name].data
+            h.update(name.encode() + str(a.dtype).encode() + str(a.shape).encode() + a.tobytes())
+        h.update(b"|")
+    return h.hexdigest()
+
+
 def call_real(pandora, m, pl, code, metaL, metaR, imgL, imgR, ctx):
     """one call on the real machine -> [code, summary, trace, right products empty?]"""
     names = pl["names"]
@@ -211,8 +224,9 @@ def call_real(pandora, m, pl, code, metaL, metaR, imgL, imgR, ctx):
         tr = []
     else:
         try:
-            _, right = pandora.run(m, imgL, imgR, pu.deep_copy_cfg(user))
+            left, right = pandora.run(m, imgL, imgR, pu.deep_copy_cfg(user))
             right_empty = len(right.data_vars) == 0
+            m.last_products = products_digest(left, right)
             out = 2
             ctx.count("impl_ran")
             ctx.traces += 1
@@ -221,6 +235,24 @@ def call_real(pandora, m, pl, code, metaL, metaR, imgL, imgR, ctx):
             ctx.count("impl_run_error_" + pu.exc_class(exc))
         tr = [[names.index(nm), pu.kind_code_of_name(nm), sc, 1 if r else 0] for nm, sc, r in m.trace]
     return [out, real_summary(m), tr], right_empty
+
+
+_FRESH = {}
+
+
+def fresh_products(pandora, pl, code, imgL, imgR, ctx):
+    """digest of the products of the same run on a machine that has never been used (memoised per pipeline)"""
+    key = (json.dumps([pl["names"], pl["cfgs"]], sort_keys=True, default=str), code)
+    if key not in _FRESH:
+        m = pu.spy_machine()
+        user = {"pipeline": {nm: c for nm, c in zip(pl["names"], pl["cfgs"])}}
+        try:
+            left, right = pandora.run(m, imgL, imgR, pu.deep_copy_cfg(user))
+            _FRESH[key] = products_digest(left, right)
+            ctx.count("fresh_machine_reference_runs")
+        except Exception:  # pylint: disable=broad-except
+            _FRESH[key] = None
+    return _FRESH[key]
 
 
 def run_mixed(ctx, pandora, model, mixed, metaL, metaR, imgL, imgR):
@@ -234,11 +266,13 @@ def run_mixed(ctx, pandora, model, mixed, metaL, metaR, imgL, imgR):
     for (pls, hist), mr in zip(mixed, mres):
         ctx.count("cases_mixed_history")
         m = pu.spy_machine()
-        impl, rempty = [], []
+        impl, rempty, dig = [], [], []
         for i, code in hist:
+            m.last_products = None
             o, re_ = call_real(pandora, m, pls[i], code, metaL, metaR, imgL, imgR, ctx)
             impl.append(o)
             rempty.append(re_)
+            dig.append(m.last_products)
         case = {"mixed": True, "pipelines": pls, "history": hist}
         ctx.case((tuple(tuple(pl["names"]) for pl in pls), tuple(map(tuple, hist))))
         ctx.sample({"kind": "mixed-history", "pipelines": [pl["names"] for pl in pls], "history": hist,
@@ -283,12 +317,62 @@ def run_mixed(ctx, pandora, model, mixed, metaL, metaR, imgL, imgR):
                                   f"differs from the fresh-machine trace (each step once per scale, in order, left "
                                   f"then right iff THIS pipeline has a validation step) or machine not restored "
                                   f"({o[1]})", dict(case, got=o, want_trace=want_tr))
+                elif (fresh := fresh_products(pandora, pl, code, imgL, imgR, ctx)) is not None \
+                        and dig[pos] is not None and dig[pos] != fresh:
+                    ctx.violation("history_mixed_products_differ",
+                                  f"accepted pipeline {names} ({code} scale(s)) run as call {pos} of the history {hist} over "
+                                  f"{[p['names'] for p in pls]} on one machine returns other products than on a machine "
+                                  f"that has never been used (a step took effect with something left by an earlier "
+                                  f"pipeline: not 'each configured step takes effect as configured')", case)
                 elif re_ is not None and re_ != (not has_val):
                     ctx.violation("history_mixed_right_products",
                                   f"pipeline {names} run in history {hist}: right dataset "
                                   f"{'empty' if re_ else 'not empty'} although the pipeline has "
                                   f"{'a' if has_val else 'no'} validation step", case)
             clean = o[0] in (0, 2)
+
+
+def run_symmetry(ctx, pandora, n):
+    """'... on the left data and (when a validation step is present) symmetrically on the right data': the steps take
+    effect on the right data as they do on the left data of the exchanged problem (the effect-level statement is
+    C08's; here a handful of accepted pipelines with a validation step are run both ways and compared bit for bit,
+    with the generators and the comparison of harness/props/c08.py)"""
+    from harness.props import c08 as h8
+    from pandora.state_machine import PandoraMachine
+
+    rp = getattr(ctx, "replay_case", None)
+    cases = [rp] if rp else []
+    for _ in range(0 if rp else n):
+        names, _interp = h8.gen_pipeline(ctx.rng)
+        ms = any(k == "multiscale" for _, k, _ in names)
+        left, right, ml, mr, itv = h8.gen_images(ctx.rng, ms)
+        cases.append({"symmetry": True, "pipeline": [list(x) for x in names], "left": left.tolist(), "right": right.tolist(),
+                      "mask_left": None if ml is None else ml.tolist(), "mask_right": None if mr is None else mr.tolist(),
+                      "interval": list(itv)})
+    for case in cases:
+        names = [tuple(x) for x in case["pipeline"]]
+        cfg = {"pipeline": {n_: dict(c) for n_, _, c in names}}
+        itv = tuple(case["interval"])
+        L = pu.image_dataset(np.array(case["left"], dtype=np.float32), disp=itv, mask=case["mask_left"])
+        R = pu.image_dataset(np.array(case["right"], dtype=np.float32), disp=None, mask=case["mask_right"])
+        L2 = pu.image_dataset(np.array(case["right"], dtype=np.float32), disp=(-itv[1], -itv[0]), mask=case["mask_right"])
+        R2 = pu.image_dataset(np.array(case["left"], dtype=np.float32), disp=None, mask=case["mask_left"])
+        try:
+            l1, r1 = pandora.run(PandoraMachine(), L, R, pu.deep_copy_cfg(cfg))
+            l2, r2 = pandora.run(PandoraMachine(), L2, R2, pu.deep_copy_cfg(cfg))
+        except Exception as exc:  # pylint: disable=broad-except
+            ctx.count("symmetry_run_raised_" + pu.exc_class(exc))
+            continue
+        ctx.traces += 2
+        ctx.count("symmetry_pairs_compared")
+        ctx.case(("symmetry", tuple(n_ for n_, _, _ in names), hash(repr(case["left"]))))
+        d1 = h8.diff_products(h8.products(r1), h8.products(l2))
+        d2 = h8.diff_products(h8.products(l1), h8.products(r2))
+        if d1 or d2:
+            ctx.violation("right_not_symmetric",
+                          f"accepted pipeline {[n_ for n_, _, _ in names]}: the steps do not take effect on the right data as "
+                          f"on the left data of the exchanged problem (right vs mirrored left differ at {d1}; left vs "
+                          f"mirrored right at {d2})", case)
 
 
 def run(ctx):
@@ -488,6 +572,8 @@ def run(ctx):
                     ctx.violation("history_check", f"accepted pipeline {names}: a later check in history {hist} was refused",
                                   {"names": names, "cfgs": cfgs, "history": hist})
     run_mixed(ctx, pandora, model, mixed, metaL, metaR, imgL, imgR)
+    if getattr(ctx, "replay_case", None) is None or ctx.replay_case.get("symmetry"):
+        run_symmetry(ctx, pandora, 12 if quick else 120)
     ctx.stats["mixed_histories"] = len(mixed)
     ctx.gen_obligations = ["check_tbl_wf Gen.Tables.check_table = true (vm_compute)",
                            "run_tbl_wf Gen.Tables.run_table = true (vm_compute)"]
